@@ -1,22 +1,13 @@
-use vharness::monitors::util::schema_digest;
 fn main() {
     let path = std::env::args().nth(1).unwrap();
     let v: serde_json::Value = serde_json::from_str(&std::fs::read_to_string(path).unwrap()).unwrap();
     let text = v["case"]["text"].as_str().unwrap();
     let (s, d) = apollo_compiler::parser::Parser::new().parse_mixed_validate(text, "m.graphql").unwrap();
     let t2 = format!("{}\n{}", s, d);
-    match apollo_compiler::parser::Parser::new().parse_mixed_validate(&t2, "m2.graphql") {
-        Err(e) => println!("REPARSE ERR: {}", e.iter().next().unwrap().error),
-        Ok((s2, d2)) => {
-            println!("schema eq {} doc eq {}", *s2 == *s, *d2 == *d);
-            let (a, b) = (schema_digest(&s), schema_digest(&s2));
-            for (x, y) in a.iter().zip(b.iter()) { if x != y { println!("DIGEST\n  {x}\n  {y}"); break; } }
-            if a.len() != b.len() { println!("digest len {} vs {}", a.len(), b.len()); }
-            let (da, db) = (d.to_string(), d2.to_string());
-            println!("doc text eq {}", da == db);
-            if s.types != s2.types { for (k, v) in &s.types { if s2.types.get(k) != Some(v) { println!("TYPE DIFF {k}: {:?}", s2.types.get(k).is_some()); } } }
-            if s.directive_definitions != s2.directive_definitions { println!("DIRDEF DIFF"); }
-            if s.schema_definition != s2.schema_definition { println!("SCHEMADEF DIFF\n{:?}\n{:?}", s.schema_definition, s2.schema_definition); }
-        }
-    }
+    for l in t2.lines() { if l.contains("En0") && (l.contains("enum") ) { println!("SER: {l}"); } }
+    let (s2, _d2) = apollo_compiler::parser::Parser::new().parse_mixed_validate(&t2, "m2.graphql").unwrap();
+    println!("{:?}", s.types.get("En0").map(|t| t.directives().len()));
+    println!("{:?}", s2.types.get("En0").map(|t| t.directives().len()));
+    let t3 = s2.to_string();
+    for l in t3.lines() { if l.contains("En0") && (l.contains("enum") ) { println!("SER2: {l}"); } }
 }
